@@ -166,6 +166,7 @@ func runC10(c *Ctx) {
 	c.rule("R-YIELD", 4, "Stack.Each, List.Each, Queue.Each, ring.scan/Each stop after f returned false")
 	ruleNoopGuard(c, "ring")
 	ruleDetachReadsOld(c)
+	ruleReverseCopy(c)
 	ruleWrapChecked(c)
 	ruleSizeGuard(c, "stack", "mlink", "ring")
 	ruleEmptyAgreesLen(c, "stack", "Stack")
@@ -1186,6 +1187,153 @@ func ruleDetachReadsOld(c *Ctx) {
 		}
 		c.sawFn(fnName(pop))
 		c.judge(stale == token.NoPos, "R-DETACH-OLD-LINKS", fmt.Sprintf("%s:read of .%s #%d", fnName(pop), f.Name(), n), ld.Pos(), "read before the receiver's links are overwritten", fmt.Sprintf("Pop reads r.%s after it was overwritten at %s: what it gets is the receiver itself, not the former neighbour, so the ring left behind is not closed", f.Name(), P.pos(stale)))
+	})
+}
+
+// ruleReverseCopy (R-REVERSE-COPY): Stack.Slice hands back the elements newest first: where it copies list[E] into
+// out[I], I counts up from 0 by one under I < len(list) and the two positions mirror each other, I + E = len(list) − 1,
+// at the moment of the access — as an invariant of two cursors (initial values sum to len − 1, steps cancel, both
+// used before they are advanced) or because E is written len(list) − 1 − I.
+func ruleReverseCopy(c *Ctx) {
+	c.rule("R-REVERSE-COPY", 0, "in Stack.Slice the copy out[I] = list[E] has I from 0 up by one under I < len(list), and I + E = len(list) − 1 at the access")
+	fn := c.P.Func("stack", "Stack", "Slice")
+	lf := firstSliceField(c.P, "stack", "Stack")
+	if fn == nil || lf == nil {
+		return
+	}
+	isLenList := func(v ssa.Value) bool {
+		ln, ok := isBuiltinCall(v, "len")
+		if !ok {
+			return false
+		}
+		_, f := loadedField(ln.Call.Args[0])
+		return f != nil && sameField(f, lf)
+	}
+	// value = a·len + k, or unknown
+	var lenForm func(v ssa.Value, d int) (int64, int64, bool)
+	lenForm = func(v ssa.Value, d int) (int64, int64, bool) {
+		if d > 5 {
+			return 0, 0, false
+		}
+		if isLenList(v) {
+			return 1, 0, true
+		}
+		if k, ok := constInt(v); ok {
+			return 0, k, true
+		}
+		if bo, ok := v.(*ssa.BinOp); ok && (bo.Op == token.ADD || bo.Op == token.SUB) {
+			a1, k1, ok1 := lenForm(bo.X, d+1)
+			a2, k2, ok2 := lenForm(bo.Y, d+1)
+			if ok1 && ok2 {
+				if bo.Op == token.ADD {
+					return a1 + a2, k1 + k2, true
+				}
+				return a1 - a2, k1 - k2, true
+			}
+		}
+		return 0, 0, false
+	}
+	// an induction variable: φ(init, φ ± step)
+	type iv struct {
+		a, k, step int64
+		ok         bool
+	}
+	ivOf := func(v ssa.Value) iv {
+		ph, ok := v.(*ssa.Phi)
+		if !ok {
+			return iv{}
+		}
+		var r iv
+		seenInit, seenStep := false, false
+		for i, e := range ph.Edges {
+			if ph.Block().Dominates(ph.Block().Preds[i]) {
+				bo, ok := e.(*ssa.BinOp)
+				if !ok || bo.X != ssa.Value(ph) {
+					return iv{}
+				}
+				k, ok := constInt(bo.Y)
+				if !ok {
+					return iv{}
+				}
+				if bo.Op == token.SUB {
+					k = -k
+				} else if bo.Op != token.ADD {
+					return iv{}
+				}
+				r.step, seenStep = k, true
+			} else {
+				a, k, ok := lenForm(e, 0)
+				if !ok {
+					return iv{}
+				}
+				r.a, r.k, seenInit = a, k, true
+			}
+		}
+		r.ok = seenInit && seenStep
+		return r
+	}
+	n := 0
+	allInstrs(fn, func(in ssa.Instruction) {
+		st, ok := in.(*ssa.Store)
+		if !ok {
+			return
+		}
+		dst, ok := st.Addr.(*ssa.IndexAddr)
+		if !ok {
+			return
+		}
+		ld, ok := st.Val.(*ssa.UnOp)
+		if !ok || ld.Op != token.MUL {
+			return
+		}
+		src, ok := ld.X.(*ssa.IndexAddr)
+		if !ok {
+			return
+		}
+		if _, f := loadedField(src.X); f == nil || !sameField(f, lf) {
+			return
+		}
+		n++
+		c.sawFn(fnName(fn))
+		key := fmt.Sprintf("%s:copy #%d", fnName(fn), n)
+		I := ivOf(dst.Index)
+		var probs []string
+		if !I.ok {
+			c.undecided("R-REVERSE-COPY", key, st.Pos(), "the destination index is not a loop variable with a constant step")
+			return
+		}
+		if I.a != 0 || I.k != 0 || I.step != 1 {
+			probs = append(probs, fmt.Sprintf("the destination index starts at %d·len%+d and moves by %+d (want: from 0 up by one)", I.a, I.k, I.step))
+		}
+		boundOK := false
+		for _, cm := range cmpsAt(st.Block()) {
+			if cm.X == dst.Index && cm.Op == token.LSS && isLenList(cm.Y) {
+				boundOK = true
+			}
+		}
+		if !boundOK {
+			probs = append(probs, "the destination index is not held below len(list) by the loop test")
+		}
+		// the source position
+		if E := ivOf(src.Index); E.ok {
+			if I.ok && (I.a+E.a != 1 || I.k+E.k != -1) {
+				probs = append(probs, fmt.Sprintf("the two cursors start at positions that sum to %d·len%+d, not len − 1", I.a+E.a, I.k+E.k))
+			}
+			if I.step+E.step != 0 {
+				probs = append(probs, fmt.Sprintf("the cursors move by %+d and %+d per round: they do not stay mirror images of each other", I.step, E.step))
+			}
+		} else if bo, ok := src.Index.(*ssa.BinOp); ok {
+			// len − 1 − I, or a cursor already advanced (e − 1 read after e--)
+			if ph, isPhi := bo.X.(*ssa.Phi); isPhi && ivOf(ph).ok {
+				probs = append(probs, "the source cursor is used after it was advanced: the element read is one further on than the position that mirrors the destination")
+			} else if a, k, ok := lenForm(bo.X, 0); !(ok && bo.Op == token.SUB && bo.Y == dst.Index && a == 1 && k == -1) {
+				probs = append(probs, "the source position is not len(list) − 1 − (destination index)")
+			}
+		} else {
+			c.undecided("R-REVERSE-COPY", key, st.Pos(), "the source position is neither a mirrored cursor nor len − 1 − I")
+			return
+		}
+		c.judge(len(probs) == 0, "R-REVERSE-COPY", key, st.Pos(), "I from 0 up by one below len; I + E = len − 1", strings.Join(probs, "; ")+": Slice does not return the elements newest first, each once")
 	})
 }
 
